@@ -196,8 +196,12 @@ def unfold(root, mode, uf=None, xdev=False):
         try:
             names = sorted(os.listdir(path))
         except OSError:
+            # a directory that cannot be read is an entry like any other; what fails is reading it: one diagnostic, made when the walk
+            # goes in (not at the depth bound, not when it is pruned) - a child that is only an error, as WalkGraph.unfold makes it
             info["kind"] = "unreadable"
-            return "B"
+            cid = uf.new(name=b"")
+            uf.nodes[cid].update(path=path, depth=depth + 1, kind="unreadable-listing", lst=None, st=None)
+            return "D[%d:B]" % cid
         anc2 = ancestors | {(st.st_dev, st.st_ino)}
         parts = []
         for nm in names:
